@@ -30,7 +30,8 @@ CTXS = ("stmt", "rhs", "nested", "suffix")
 
 
 def inline_constants(max_params, max_sites, plain=False, scopes=False):
-    return {"Hosts": {True, False} if scopes else tlc.Sub("NoHost"),
+    return {"MaxRecv": 1, "MaxPreviews": 0, "PreviewKinds": tlc.Sub("NoPreview"),
+            "Hosts": {True, False} if scopes else tlc.Sub("NoHost"),
             "Dups": {True, False} if scopes else tlc.Sub("NoDup"),"MaxParams": max_params, "MaxArgs": 3, "Kinds": tlc.Sub("InlineKinds"), "Stars": False, "KoSet": tlc.Sub("NoKo"),
             "MaxChangers": 0, "Task": "inline", "MaxSites": max_sites,
             "Uses": tlc.Sub("PlainOnly" if plain else "AllUses"), "Cxs": tlc.Sub("NoCx") if plain else {True, False}}
